@@ -70,6 +70,28 @@ def shared_ptrs(ctx, toks):
             out.extend(tokenize('%s(*%s)' % (t.ws, t.t))); i += 5; fire(ctx, 'optional-get'); continue
         out.append(t); i += 1
     return out
+def cstr_calls(ctx, toks):
+    """std::strlen(x) -> c_strlen(x) (ghost with the C library's non-null precondition);  set(value, n) (the two-argument overload) -> set_len(value, n)"""
+    out = []; i = 0
+    while i < len(toks):
+        t = toks[i]
+        if t.t == 'strlen' and toks[i + 1].t == '(':
+            k = len(out)
+            while k and out[k - 1].t in ('std', '::'): k -= 1
+            ws = out[k].ws if k < len(out) else t.ws
+            del out[k:]; out.append(Tok('id', 'c_strlen', ws)); i += 1; fire(ctx, 'strlen-ghost'); continue
+        if t.t == 'set' and toks[i + 1].t == '(' and (not out or out[-1].t not in ('.', '->', '::')):
+            out.append(Tok('id', 'set_len', t.ws)); i += 1; fire(ctx, 'set-overload'); continue
+        out.append(t); i += 1
+    return out
+UNITS['Variant_set_cstr_front'] = dict(file='src/Variant.cpp', locator=r'void\s+Variant::set\s*\((?=\s*const\s+char\s*\*\s*value\s*\))', cls='Variant', cls_file='include/nix/Variant.hpp', classes=['Variant'],
+    pre_rules=[cstr_calls], inherited_methods=['set_len'])
+CSX = 'size_t gh_strlen_result, gh_set_len; int gh_set_calls, gh_strlen_calls; const char *gh_set_value;\n'
+JOBS.append(dict(name='Variant_set_cstr_front', bodies=['Variant_set_cstr_front'], enforce=['Variant_set_cstr_front'], replace=[], includes=['c16_cstr.h'], extra_c=CSX, expect_kinds=['postcondition'], timeout=300))
+UNITS['DataFrameDimensionHDF5_checkColumnIndex'] = dict(file='backend/hdf5/DimensionHDF5.cpp', locator=r'boost::optional<unsigned>\s+DataFrameDimensionHDF5::checkColumnIndex\s*\(', cls='DataFrameDimensionHDF5',
+    cls_file='backend/hdf5/DimensionHDF5.hpp', classes=['DataFrameDimensionHDF5', 'DataFrame', 'Column'], ret_default='OPT_NONE_unsigned')
+JOBS.append(dict(name='DataFrameDimensionHDF5_checkColumnIndex', bodies=['DataFrameDimensionHDF5_checkColumnIndex'], enforce=['DataFrameDimensionHDF5_checkColumnIndex'], replace=[], includes=['c16_column.h'],
+                 extra_c='opt_unsigned gh_own_column; size_t gh_ncols;\n', expect_kinds=['postcondition'], timeout=300))
 BT = 'backend/hdf5/BaseTagHDF5.cpp'; BTH = 'backend/hdf5/BaseTagHDF5.hpp'
 FCL = ['BaseTagHDF5', 'H5Group', 'FeatureP', 'DataArrayP', 'nstring']
 UNITS['BaseTagHDF5_getFeature_key'] = dict(file=BT, locator=r'std::shared_ptr<IFeature>\s+BaseTagHDF5::getFeature\s*\((?=\s*const\s+std::string)', cls='BaseTagHDF5', cls_file=BTH, classes=FCL, pre_rules=[shared_ptrs],
@@ -82,7 +104,7 @@ JOBS += [dict(name='BaseTagHDF5_getFeature_key', bodies=['BaseTagHDF5_getFeature
               expect_kinds=['postcondition', 'loop_invariant_base', 'loop_invariant_step'], timeout=300),
          dict(name='BaseTagHDF5_getFeature_index', bodies=['BaseTagHDF5_getFeature_index'], enforce=['BaseTagHDF5_getFeature_index'], replace=[], includes=['c16_feature.h'], extra_c=FTX,
               expect_kinds=['postcondition'], timeout=300)]
-SPEC = dict(new_safety_failures_are_violations=True, contracts=['c07_leaf.h', 'nd.h', 'c10_version.h', 'c16_strings.h', 'c16_feature.h'], stubs=['std_algo.h'], include_order=['c07_leaf.h', 'nd.h', 'c10_version.h', 'std_algo.h'], units=UNITS, jobs=JOBS,
+SPEC = dict(new_safety_failures_are_violations=True, contracts=['c07_leaf.h', 'nd.h', 'c10_version.h', 'c16_strings.h', 'c16_feature.h', 'c16_cstr.h', 'c16_column.h'], stubs=['std_algo.h'], include_order=['c07_leaf.h', 'nd.h', 'c10_version.h', 'std_algo.h'], units=UNITS, jobs=JOBS,
             trusted_base=c07.SPEC['trusted_base'] + ND_TRUST,
             assumptions=['type invariants only: enum parameters hold an enumerator, vectors have at most 2^20 elements, NDSize rank <= 32 with dims of exactly rank elements',
                          'sampled axis: interval and offset are grid constants (symbolic division does not terminate); the position is any double',
